@@ -207,7 +207,13 @@ REQUIRED_THEOREMS["C01"] = ["C01_prim_addEdge", "C01_prim_addEdge_law", "C01_pri
 REQUIRED_THEOREMS["C10"] = ["C10_unknown", "C10_protected", "C10_protected_any_activation", "C10_registry_enable",
                             "C10_registry_disable", "C10_registry_step", "C10_disabled_frozen_update",
                             "C10_disabled_frozen_compute", "C10_disabled_frozen_updSeg", "C10_disabled_frozen_iou",
-                            "C10_disabled_frozen_updAttrs"]
+                            "C10_disabled_frozen_updAttrs",
+                            # R5B: feature switching inside histories (any operation list incl. undo/redo)
+                            "C10_registry_reach", "C10_unknown_reach", "C10_protected_reach", "C10_weak_invariant_reach",
+                            "C10_current_after_enable_reach_partial", "C10_disabled_frozen_reach_partial",
+                            "C10_disabled_frozen_after_disable", "C10_inv_not_preserved_disable",
+                            "C10_inv_not_preserved_tid", "C10_inv_not_preserved_lin",
+                            "C10_disabled_frozen_needs_record_condition"]
 REQUIRED_THEOREMS["C11"] = ["C11_note_rollback_loses_unregistered_attr", "C11_deleteEdge_unknown", "C11_addEdge_invalid", "C11_addEdge_merge", "C11_addEdge_triple",
                             "C11_addNode_invalid", "C11_deleteNode_unknown", "C11_swap_unknown", "C11_swap_invalid",
                             "C11_updateSeg_no_seg", "C11_updateAttrs", "C11_updateAttrs_protected", "C11_updateAttrs_unknown",
